@@ -37,10 +37,22 @@ pub fn features(v: &V) -> Vec<String> {
     }
 }
 
+/// the rendering of the trait route; the text of every public route must be normalised
 fn render(n: &Narsese) -> Result<String, String> {
-    let s = ops::typst(n)?;
-    normalised(&s)?;
-    Ok(s)
+    let texts = ops::typst_routes(n)?;
+    for s in &texts {
+        normalised(s)?;
+    }
+    Ok(texts.into_iter().next().unwrap_or_default())
+}
+
+/// all distinct renderings (every route), each normalised
+fn render_all(n: &Narsese) -> Result<Vec<String>, String> {
+    let texts = ops::typst_routes(n)?;
+    for s in &texts {
+        normalised(s)?;
+    }
+    Ok(texts)
 }
 
 pub fn replay_case(c: &J) -> Result<(), String> {
@@ -108,8 +120,12 @@ pub fn run(run: &Run) {
             Ok(n) => n,
             Err(_) => return,
         };
-        match render(&n) {
-            Ok(s) => record(s, v),
+        match render_all(&n) {
+            Ok(texts) => {
+                for s in texts {
+                    record(s, v);
+                }
+            }
             Err(e) => run.violation(&format!("{} : {e}", v.show()), json!({"op": "typst_render", "value": v.to_json()}), &features(v)),
         }
     });
